@@ -483,6 +483,13 @@ impl<'a> Compiler<'a> {
 
         let type_info = op.type_info(&original_state);
 
+        #[cfg(feature = "verif-hooks")]
+        let op = {
+            let mut op = op;
+            op.verif.infallible = type_info.result.is_infallible();
+            op
+        };
+
         // If the op as a whole is infallible (e.g. `?? default` or a
         // short-circuit boolean made it so), drop fallibility produced by
         // any of its sub-expressions.
